@@ -45,6 +45,7 @@ func runC03(r *Report) {
 	c03R8(r)
 	c03R9(r)
 	c03R10(r)
+	c03R11(r)
 	_ = p
 }
 
@@ -973,4 +974,95 @@ func c03R10(r *Report) {
 		})
 	}
 	r.Sentinel("R10", n, 2)
+}
+
+// ---------- R11: the allocator frees each buffer the way it was made ----------
+
+// c03R11: alloc.Free decides by the buffer's length whether it was mapped (Munmap under len(p) >= K); so Alloc may hand
+// out a heap buffer only for size < K and a mapping only for size >= K, with the same K. A heap buffer of K bytes or
+// more (a fallback when mmap is refused, say) is later given to Munmap, which fails — and Pieces.del panics on that
+// error with the store's lock held.
+func c03R11(r *Report) {
+	p := r.P
+	var fns []*ssa.Function
+	for _, f := range p.SrcFuncs() {
+		if relPkg(f) == "alloc" {
+			fns = append(fns, f)
+		}
+	}
+	var munmaps, mmaps []*ssa.Call
+	var makes []ssa.Instruction
+	for _, f := range fns {
+		allInstrs(f, func(in ssa.Instruction) {
+			switch x := in.(type) {
+			case *ssa.Call:
+				if o := calleeObj(x); o != nil && o.Pkg() != nil && strings.HasSuffix(o.Pkg().Path(), "x/sys/unix") {
+					switch o.Name() {
+					case "Munmap":
+						munmaps = append(munmaps, x)
+					case "Mmap":
+						mmaps = append(mmaps, x)
+					}
+				}
+			case *ssa.MakeSlice:
+				makes = append(makes, x)
+			}
+		})
+	}
+	if len(munmaps) == 0 {
+		r.Info("R11", "alloc/no-munmap", token.NoPos, "this build's allocator does not map memory: nothing to pair")
+		return
+	}
+	bound := func(in ssa.Instruction, wantGE bool) (int64, bool) {
+		var K int64
+		found := p.factHolds(in, func(g Guard) bool {
+			op, _, y, ok := cmpFact(g)
+			if !ok {
+				return false
+			}
+			k, okk := constInt(y)
+			if !okk || k <= 1 {
+				return false
+			}
+			switch {
+			case wantGE && op == token.GEQ:
+				K = k
+			case wantGE && op == token.GTR:
+				K = k + 1
+			case !wantGE && op == token.LSS:
+				K = k
+			case !wantGE && op == token.LEQ:
+				K = k + 1
+			default:
+				return false
+			}
+			return true
+		}, 0)
+		return K, found
+	}
+	n := 0
+	var kFree int64
+	for _, c := range munmaps {
+		n++
+		r.Fn(c.Parent())
+		k, ok := bound(c, true)
+		r.Check(ok, "R11", fname(c.Parent())+"/Munmap-only-above-cutoff", c.Pos(), "memory is unmapped only for buffers of at least the cutoff", "unix.Munmap is called on a path that has not established len(p) >= cutoff")
+		if ok {
+			kFree = k
+		}
+	}
+	for _, c := range mmaps {
+		n++
+		r.Fn(c.Parent())
+		k, ok := bound(c, true)
+		r.Check(ok && (kFree == 0 || k == kFree), "R11", fname(c.Parent())+"/Mmap-only-above-cutoff", c.Pos(), "memory is mapped only for sizes of at least the cutoff Free uses", "unix.Mmap is called for a size that is not known to be >= the cutoff by which Free decides to unmap")
+	}
+	for _, m := range makes {
+		n++
+		r.Fn(m.Parent())
+		k, ok := bound(m, false)
+		r.Check(ok && (kFree == 0 || k == kFree), "R11", fname(m.Parent())+"/heap-buffer-only-below-cutoff", m.Pos(), "a heap buffer is handed out only for sizes below the cutoff Free uses",
+			fmt.Sprintf("alloc makes a heap buffer on a path that has not established size < %d, the cutoff above which Free calls Munmap: such a buffer is later unmapped, Munmap fails with EINVAL and Pieces.del panics on the error with the store's lock held (eviction, hash mismatch or deletion of that piece kills the process)", kFree))
+	}
+	r.Sentinel("R11", n, 3)
 }
